@@ -1,49 +1,51 @@
 (* C16 -- BUILD loaders agree across formats, are deterministic, and never crash.
    Only statements, each closed by [exact] of a lemma from Loader_proofs.v.
    Loader.v mirrors the Makefile / script annotation scanners (with an explicit [Panic] outcome
-   where Go indexes an empty slice), getEnrichedPackage and the merge loop of LoadPackages +
+   where the Go handleTarget functions index an empty slice), getEnrichedPackage (a nil element
+   of the targets / aliases slice is [None]) and the merge loop of LoadPackages +
    BuildNodeMapFromPackages.  yaml.Unmarshal, doublestar.Glob and time.ParseDuration are oracle
    parameters ([yaml], [glob], [dur]); the JSON / YAML / Starlark decoders are not modelled
    (partial by nature: covered by the differential run of ./check C16 only). *)
 From Coq Require Import Permutation.
 From Grog Require Import Str Label Loader Loader_proofs.
 
-(* ---- never crash: the Makefile annotation scanner *)
+(* ---- never crash: the Makefile annotation scanner, full strength *)
 
-(* full statement "no input panics the scanner": REFUTED -- '# @grog' directly followed by the
-   goal line indexes annotationLineNumbers[-1], whatever the YAML decoder does (C16-F1) *)
-Theorem C16_scan_no_panic_refuted :
-  exists lines, forall yaml, scan_makefile yaml lines = Panic.
-Proof. exact scan_no_panic_refuted. Qed.
-Print Assumptions C16_scan_no_panic_refuted.
+(* no input and no decoder behaviour makes the scanner panic: a '# @grog' marker with no
+   annotation line before the next non-comment line is skipped before handleTarget could index
+   annotationLineNumbers[-1] (C16-F1 repaired) *)
+Theorem C16_scan_no_panic : forall yaml lines, is_panic (scan_makefile yaml lines) = false.
+Proof. exact scan_no_panic. Qed.
+Print Assumptions C16_scan_no_panic.
 
-(* strongest true statement: outside the shape described by the decidable guard [mk_guard]
-   (an annotation block with no comment line before its goal line) no decoder behaviour makes
-   the scanner panic *)
-Theorem C16_scan_no_panic_partial : forall lines,
-  mk_guard lines = true -> forall yaml, is_panic (scan_makefile yaml lines) = false.
-Proof. exact scan_no_panic_partial. Qed.
-Print Assumptions C16_scan_no_panic_partial.
+(* the same for the whole file (bufio.Scanner line splitting, token-too-long cut included) *)
+Theorem C16_makefile_file_no_panic : forall maxlen yaml content,
+  is_panic (scan_makefile_file maxlen yaml content) = false.
+Proof. exact makefile_file_no_panic. Qed.
+Print Assumptions C16_makefile_file_no_panic.
 
-(* the guard is exact: it fails iff some decoder behaviour leads to the panic ... *)
+(* the repair changed nothing else: wherever the parser without the skip
+   ([scan_makefile_noskip], the code in which C16-F1 was found) did not panic, the parser with
+   it gives the same result ... *)
+Theorem C16_scan_fix_conservative : forall yaml lines,
+  is_panic (scan_makefile_noskip yaml lines) = false ->
+  scan_makefile yaml lines = scan_makefile_noskip yaml lines.
+Proof. exact scan_fix_conservative. Qed.
+Print Assumptions C16_scan_fix_conservative.
+
+(* ... and the inputs concerned are exactly those described by the decidable [mk_guard]
+   (an annotation block with no comment line before its goal line): it fails iff some decoder
+   behaviour made the parser without the skip panic *)
 Theorem C16_scan_guard_exact : forall lines,
-  mk_guard lines = false <-> exists yaml, is_panic (scan_makefile yaml lines) = true.
+  mk_guard lines = false <-> exists yaml, is_panic (scan_makefile_noskip yaml lines) = true.
 Proof. exact mk_guard_exact. Qed.
 Print Assumptions C16_scan_guard_exact.
 
-(* ... and with a decoder that accepts every block it fails iff the scanner panics *)
 Theorem C16_scan_guard_exact_total : forall yaml lines,
   (forall s, yaml s <> None) ->
-  (is_panic (scan_makefile yaml lines) = true <-> mk_guard lines = false).
+  (is_panic (scan_makefile_noskip yaml lines) = true <-> mk_guard lines = false).
 Proof. exact mk_guard_exact_total. Qed.
 Print Assumptions C16_scan_guard_exact_total.
-
-(* the same for the whole file (bufio.Scanner line splitting, token-too-long cut included) *)
-Theorem C16_makefile_file_no_panic_partial : forall maxlen yaml content,
-  mk_guard (fst (split_lines maxlen content)) = true ->
-  is_panic (scan_makefile_file maxlen yaml content) = false.
-Proof. exact makefile_file_no_panic_partial. Qed.
-Print Assumptions C16_makefile_file_no_panic_partial.
 
 (* ---- never crash: the script annotation scanner, full strength *)
 Theorem C16_script_scan_no_panic : forall yaml name lines,
@@ -56,36 +58,64 @@ Theorem C16_script_file_no_panic : forall maxlen yaml name content,
 Proof. exact script_file_no_panic. Qed.
 Print Assumptions C16_script_file_no_panic.
 
+(* ---- never crash: a null entry in the targets / aliases list (C16-F4 repaired) *)
+
+(* a package is produced only from lists without nil elements ... *)
+Theorem C16_enrich_ok_no_null : forall glob dur path d p,
+  enrich glob dur path d = Ok p -> ~ In None (pd_targets d) /\ ~ In None (pd_aliases d).
+Proof. exact enrich_ok_no_null. Qed.
+Print Assumptions C16_enrich_ok_no_null.
+
+(* ... and a nil element is reported as such unless an entry before it is rejected first *)
+Theorem C16_enrich_null_target : forall glob dur path d before after,
+  pd_targets d = before ++ None :: after ->
+  enrich glob dur path d =
+  match enrich_targets glob dur (pd_source d) path (pd_default_platforms d) before [] with
+  | Err e => Err e
+  | Ok _ => Err ENullTarget
+  end.
+Proof. exact enrich_null_target. Qed.
+Print Assumptions C16_enrich_null_target.
+
+Theorem C16_enrich_null_alias : forall glob dur path d ts before after,
+  enrich_targets glob dur (pd_source d) path (pd_default_platforms d) (pd_targets d) [] = Ok ts ->
+  pd_aliases d = before ++ None :: after ->
+  enrich glob dur path d =
+  match enrich_aliases (pd_source d) path (map t_label ts) before [] with
+  | Err e => Err e
+  | Ok _ => Err ENullAlias
+  end.
+Proof. exact enrich_null_alias. Qed.
+Print Assumptions C16_enrich_null_alias.
+
 (* ---- agree across formats: every field the annotation schema declares reaches the target *)
 
-(* REFUTED for Makefile annotations (C16-F2): an annotation that sets fingerprint,
-   environment_variables, timeout and platforms loads to a TargetDTO with all four empty, which
-   differs from the DTO of the same settings written as BUILD.json ([full_dto]); the script
-   loader copies the same four fields *)
-Theorem C16_makefile_fields_refuted :
-  exists (a : annot) (lines : list str) (td : target_dto),
-    scan_makefile (fun _ => Some a) lines = ScanOk true [td] /\
-    td = mk_target a goal_foo /\
-    an_fingerprint a <> [] /\ an_env a <> [] /\ an_timeout a <> [] /\ an_platforms a <> None /\
-    td_fingerprint td = [] /\ td_env td = [] /\ td_timeout td = [] /\ td_platforms td = None /\
-    td <> full_dto a goal_foo /\
-    td_fingerprint (script_target a script_x) = an_fingerprint a /\
-    td_env (script_target a script_x) = an_env a /\
-    td_timeout (script_target a script_x) = an_timeout a /\
-    td_platforms (script_target a script_x) = an_platforms a.
-Proof. exact makefile_fields_refuted. Qed.
-Print Assumptions C16_makefile_fields_refuted.
+(* the TargetDTO of a Makefile annotation is the DTO of the same settings written as
+   BUILD.json ([full_dto]): fingerprint, platforms, timeout and environment_variables included
+   (C16-F2 repaired) *)
+Theorem C16_makefile_fields : forall a goal, mk_target a goal = full_dto a goal.
+Proof. exact makefile_fields. Qed.
+Print Assumptions C16_makefile_fields.
 
-(* strongest true statement: name, command, dependencies, inputs, outputs and tags are copied,
-   and the Makefile DTO equals the JSON DTO exactly when none of the four fields is set *)
-Theorem C16_makefile_fields_partial : forall a goal,
+(* field by field: the nine declared annotation fields arrive, nothing else is set *)
+Theorem C16_makefile_fields_each : forall a goal,
   let td := mk_target a goal in
-  td_name td = td_name (full_dto a goal) /\ td_command td = td_command (full_dto a goal) /\
+  td_name td = (if null (an_name a) then goal else an_name a) /\
+  td_command td = make_prefix ++ goal /\
   td_deps td = an_deps a /\ td_inputs td = an_inputs a /\ td_outputs td = an_outputs a /\
-  td_tags td = an_tags a /\
-  (no_dropped_fields a = true <-> td = full_dto a goal).
-Proof. exact makefile_fields_partial. Qed.
-Print Assumptions C16_makefile_fields_partial.
+  td_tags td = an_tags a /\ td_fingerprint td = an_fingerprint a /\ td_env td = an_env a /\
+  td_timeout td = an_timeout a /\ td_platforms td = an_platforms a /\
+  td_excludes td = [] /\ td_bin td = [] /\ td_checks td = [].
+Proof. exact makefile_fields_each. Qed.
+Print Assumptions C16_makefile_fields_each.
+
+(* one annotation, both annotation loaders: the shared fields arrive identically *)
+Theorem C16_makefile_script_fields_agree : forall a goal file,
+  let m := mk_target a goal in let s := script_target a file in
+  td_deps m = td_deps s /\ td_fingerprint m = td_fingerprint s /\ td_env m = td_env s /\
+  td_timeout m = td_timeout s /\ td_platforms m = td_platforms s.
+Proof. exact makefile_script_fields_agree. Qed.
+Print Assumptions C16_makefile_script_fields_agree.
 
 (* ---- agree across formats: enrichment sees the DTO content only *)
 
@@ -100,11 +130,12 @@ Proof. exact enrich_source_only. Qed.
 Print Assumptions C16_enrich_format_free.
 
 (* labels of an enriched package: package part = the normalised package path, name = the name
-   of the DTO, in DTO order; all labels of the package pairwise distinct *)
+   of the DTO, in DTO order ([somes] = the non-nil elements; there are no others by
+   C16_enrich_ok_no_null); all labels of the package pairwise distinct *)
 Theorem C16_enrich_labels : forall glob dur path d p,
   enrich glob dur path d = Ok p ->
-  map t_label (p_targets p) = map (tlabel path) (pd_targets d) /\
-  map a_label (p_aliases p) = map (alabel path) (pd_aliases d) /\
+  map t_label (p_targets p) = map (tlabel path) (somes (pd_targets d)) /\
+  map a_label (p_aliases p) = map (alabel path) (somes (pd_aliases d)) /\
   NoDup (pkg_labels p) /\
   pkey p = norm_path path.
 Proof. exact enrich_labels. Qed.
@@ -114,7 +145,7 @@ Print Assumptions C16_enrich_labels.
 Theorem C16_enrich_targets_pointwise : forall glob dur path d p,
   enrich glob dur path d = Ok p ->
   Forall2 (fun td t => enrich_target glob dur (pd_source d) path (pd_default_platforms d) [] td = Ok t)
-          (pd_targets d) (p_targets p).
+          (somes (pd_targets d)) (p_targets p).
 Proof. exact enrich_targets_pointwise. Qed.
 Print Assumptions C16_enrich_targets_pointwise.
 
